@@ -9,6 +9,7 @@ import NmVerif.Simd.BinaryLemmas
 import NmVerif.Simd.NdLemmas
 import NmVerif.Simd.AxisLemmas
 import NmVerif.Simd.OuterEvalLemmas
+import NmVerif.Simd.MatmulLemmas
 /-
   C12 — SIMD evaluation equals scalar evaluation for every size, shape and layout.
   Only property statements (+ non-vacuity examples, counterexamples of known findings) live here.
@@ -788,6 +789,85 @@ theorem matmul_inner_covers_once (N K Nn o : Nat) (hN : 0 < N) :
     simp only [Nat.add_sub_cancel_left] at h
     exact h
 
+/-- **the order / association of `eval_matmul`, stated explicitly, and no buffer left**: output element `o` of the
+    `(M, Nn)` result is `matmulCell`: the left-to-right horizontal sum (`add`) of `N` lane accumulators, lane `l` being
+    the chain `fma(row[sN+l], col[sN+l], ·)` over the registers `s = 0 … ⌈K/N⌉−1` of row `o / Nn` of the row-major lhs and
+    column `o % Nn` of the column-major rhs, both zero-padded to a multiple of `N`, started from `0` — exactly the `K`
+    elements of that row and column, for every `K > 0`, `M`, `Nn` and lane count.  No algebraic law is used: this is
+    what the code computes also in floating point, PROVIDED the `fmadd` intrinsic is lane-wise `fma` (with its own,
+    single rounding — the rounding itself is outside the model). -/
+theorem simdMatmul_eq_laneSums (N : Nat) (hN : 0 < N) (fma : α → α → α → α) (add : α → α → α) (zero : α)
+    (lhs rhs : List α) (M K Nn : Nat) (hK : 0 < K) (hl : lhs.length = M * K) (hr : rhs.length = Nn * K)
+    (out : List α) (ho : out.length = M * Nn) :
+    simdMatmul N fma add zero lhs rhs M K Nn out = matmulRef fma add zero N lhs rhs M K Nn
+    ∧ (matmulRef fma add zero N lhs rhs M K Nn).isSome :=
+  simdMatmul_eq_ref N hN fma add zero lhs rhs M K Nn hK hl hr out ho
+
+/-- **SIMD matmul element `(i,j)` = Σ_{k<K} lhs[i,k]·rhs[k,j]** (the scalar reference `scalarMatmul`: the `K` products folded
+    left to right from `0`), in exact arithmetic: `(add, 0)` a commutative monoid (the lane-strided re-association),
+    `fma x y z = x·y + z` (a hardware `fmadd` rounds once instead of twice: outside the model) and `0·0 = 0` (padding lanes). -/
+theorem simdMatmul_eq_scalar (N : Nat) (hN : 0 < N) (fma : α → α → α → α) (mul add : α → α → α) (zero : α)
+    (hm : IsCommMonoid add zero) (hfma : ∀ x y z, fma x y z = add (mul x y) z) (hz : mul zero zero = zero)
+    (lhs rhs : List α) (M K Nn : Nat) (hK : 0 < K) (hl : lhs.length = M * K) (hr : rhs.length = Nn * K)
+    (out : List α) (ho : out.length = M * Nn) :
+    simdMatmul N fma add zero lhs rhs M K Nn out = scalarMatmul mul add zero lhs rhs M K Nn :=
+  simdMatmul_eq_scalar' hm fma mul hfma hz N hN lhs rhs M K Nn hK hl hr out ho
+
+/-- **`operator()` on a matmul view, with an effective layout test on the lhs (the tree after
+    fixes/C12-matmul-lhs-layout-fallback.diff) = the n-d reference** `out[m,n] = Σ_k a[m,k]·b[k,n]` for every operand pair that
+    is a program: a column-major lhs (any rhs) is handed to the scalar evaluator, a row-major lhs with a column-major rhs
+    goes through `eval_matmul` (a row-major rhs under a row-major lhs is rejected at compile time). -/
+theorem simdEvalMatmul_repaired_eq_scalar (N : Nat) (hN : 0 < N) (fma : α → α → α → α) (mul add : α → α → α) (zero : α)
+    (hm : IsCommMonoid add zero) (hfma : ∀ x y z, fma x y z = add (mul x y) z) (hz : mul zero zero = zero)
+    (a b : NDA α) (M K Nn : Nat) (ha : a.shape = [M, K]) (hb : b.shape = [K, Nn]) (hwa : a.WF) (hwb : b.WF) (hK : 0 < K)
+    (hprog : a.colMajor = true ∨ b.colMajor = true) (out : List α) (ho : out.length = M * Nn) :
+    simdEvalMatmulWith true N fma mul add zero a b M K Nn out = scalarMatmulNDA mul add zero a b M K Nn := by
+  unfold simdEvalMatmulWith
+  cases hca : a.colMajor with
+  | true => simp
+  | false =>
+    have hcb : b.colMajor = true := by
+      rcases hprog with h | h
+      · rw [hca] at h; cases h
+      · exact h
+    have hla : a.data.length = M * K := by
+      have : a.data.length = prod a.shape := hwa
+      rw [this, ha]; simp [prod]
+    have hlb : b.data.length = Nn * K := by
+      have : b.data.length = prod b.shape := hwb
+      rw [this, hb]; simp [prod, Nat.mul_comm]
+    simp only [hcb, Bool.and_false, Bool.false_eq_true, if_false, if_true]
+    rw [simdMatmul_eq_scalar N hN fma mul add zero hm hfma hz a.data b.data M K Nn hK hla hlb out ho,
+        scalarMatmulNDA_rowCol mul add zero a b M K Nn ha hb hca hcb]
+
+/-- **`operator()` on a matmul view, the tree as it is = the n-d reference on the operand pair `eval_matmul` is written for**:
+    row-major lhs, column-major rhs.  (For a column-major lhs the unchanged code does NOT fall back:
+    `simdEvalMatmul_colMajorLhs_counterexample`.) -/
+theorem simdEvalMatmul_eq_scalar (N : Nat) (hN : 0 < N) (fma : α → α → α → α) (mul add : α → α → α) (zero : α)
+    (hm : IsCommMonoid add zero) (hfma : ∀ x y z, fma x y z = add (mul x y) z) (hz : mul zero zero = zero)
+    (a b : NDA α) (M K Nn : Nat) (ha : a.shape = [M, K]) (hb : b.shape = [K, Nn]) (hwa : a.WF) (hwb : b.WF) (hK : 0 < K)
+    (hra : a.colMajor = false) (hcb : b.colMajor = true) (out : List α) (ho : out.length = M * Nn) :
+    simdEvalMatmul N fma mul add zero a b M K Nn out = scalarMatmulNDA mul add zero a b M K Nn := by
+  have hla : a.data.length = M * K := by
+    have : a.data.length = prod a.shape := hwa
+    rw [this, ha]; simp [prod]
+  have hlb : b.data.length = Nn * K := by
+    have : b.data.length = prod b.shape := hwb
+    rw [this, hb]; simp [prod, Nat.mul_comm]
+  unfold simdEvalMatmul simdEvalMatmulWith
+  simp only [hra, hcb, Bool.and_false, Bool.false_eq_true, if_false, if_true]
+  rw [simdMatmul_eq_scalar N hN fma mul add zero hm hfma hz a.data b.data M K Nn hK hla hlb out ho,
+      scalarMatmulNDA_rowCol mul add zero a b M K Nn ha hb hra hcb]
+
+/-- **known finding matmul.column-major-lhs** (replayed on the real headers): with a column-major lhs the unchanged
+    `operator()` still runs `eval_matmul`, which reads the lhs buffer as if it were row-major: both operands with
+    buffer `1..6` in column-major layout (`a = [[1,3,5],[2,4,6]]`, `b = [[1,4],[2,5],[3,6]]`) give `[14,32,32,77]` instead of
+    `a·b = [22,49,28,64]`. -/
+theorem simdEvalMatmul_colMajorLhs_counterexample :
+    simdEvalMatmul 2 (fun x y z => x * y + z) (· * ·) (· + ·) (0 : Int) ⟨[2,3], true, [1,2,3,4,5,6]⟩ ⟨[3,2], true, [1,2,3,4,5,6]⟩
+        2 3 2 [0,0,0,0]
+      ≠ scalarMatmulNDA (· * ·) (· + ·) (0 : Int) ⟨[2,3], true, [1,2,3,4,5,6]⟩ ⟨[3,2], true, [1,2,3,4,5,6]⟩ 2 3 2 := by decide
+
 /-! non-vacuity -/
 example : LaneWise1 4 (fun xs : List Nat => xs.map (· + 1)) (· + 1) := fun _ _ => rfl
 example : (⟨[2,5], false, List.range 10⟩ : NDA Nat).WF ∧ Pos [2,5] := ⟨by simp [NDA.WF, prod], by decide⟩
@@ -833,5 +913,18 @@ example : simdOuter 4 (List.zipWith (· + ·)) (· + ·) [10,20] [1,2,3,4,5,6] [
     ∧ scalarOuter (· + ·) (⟨[2], false, [10,20]⟩ : NDA Int) ⟨[6], false, [1,2,3,4,5,6]⟩ = some [11,12,13,14,15,16,21,22,23,24,25,26] := by decide
 example : (outerAt 4 [2,3,6] [2] [3,6] 9).1 = ⟨Tag.PAD 2, 28⟩ ∧ (outerAt 4 [2,3,6] [2] [3,6] 9).2.1.off = (28 + 1) / 18
     ∧ (outerAt 4 [2,3,6] [2] [3,6] 9).2.2.off + 1 = (28 + 1) % 18 ∧ outerLen 4 (outerAt 4 [2,3,6] [2] [3,6] 9).1 = 2 := by decide
+example : simdMatmul 4 (fun x y z => x * y + z) (· + ·) (0 : Int) [1,2,3,4,5,6, 7,8,9,10,11,12] [1,0,1,0,1,0, 2,2,2,2,2,2] 2 6 2 [0,0,0,0]
+      = some [9, 42, 27, 114]
+    ∧ scalarMatmul (· * ·) (· + ·) (0 : Int) [1,2,3,4,5,6, 7,8,9,10,11,12] [1,0,1,0,1,0, 2,2,2,2,2,2] 2 6 2 = some [9, 42, 27, 114]
+    ∧ matmulRef (fun x y z => x * y + z) (· + ·) (0 : Int) 4 [1,2,3,4,5,6, 7,8,9,10,11,12] [1,0,1,0,1,0, 2,2,2,2,2,2] 2 6 2 = some [9, 42, 27, 114] := by decide
+example : laneAccs (fun x y z => x * y + z) (0 : Int) 4 [1,2,3,4,5,6] [2,2,2,2,2,2] 2 = [12, 16, 6, 8]
+    ∧ pchunk (0 : Int) 4 [1,2,3,4,5,6] 1 = [5,6,0,0] := by decide
+example : simdEvalMatmulWith true 2 (fun x y z => x * y + z) (· * ·) (· + ·) (0 : Int) ⟨[2,3], true, [1,4,2,5,3,6]⟩ ⟨[3,2], false, [1,2,3,4,5,6]⟩ 2 3 2 [0,0,0,0]
+      = some [22, 28, 49, 64]
+    ∧ simdEvalMatmul 2 (fun x y z => x * y + z) (· * ·) (· + ·) (0 : Int) ⟨[2,3], false, [1,2,3,4,5,6]⟩ ⟨[3,2], true, [1,3,5,2,4,6]⟩ 2 3 2 [0,0,0,0]
+      = some [22, 28, 49, 64]
+    ∧ simdEvalMatmul 2 (fun x y z => x * y + z) (· * ·) (· + ·) (0 : Int) ⟨[2,3], true, [1,2,3,4,5,6]⟩ ⟨[3,2], true, [1,2,3,4,5,6]⟩ 2 3 2 [0,0,0,0]
+      = some [14, 32, 32, 77]
+    ∧ scalarMatmulNDA (· * ·) (· + ·) (0 : Int) ⟨[2,3], true, [1,2,3,4,5,6]⟩ ⟨[3,2], true, [1,2,3,4,5,6]⟩ 2 3 2 = some [22, 49, 28, 64] := by decide
 
 end NmVerif.Props.C12
